@@ -234,7 +234,7 @@ func (r *report) native(overlay map[string]string, scratch string) {
 				}
 				continue
 			}
-			if match && c.expect == "done" && strings.Join(o.Reaches, ",") != strings.Join(c.reaches, ",") {
+			if match && c.expect == "done" && !sameReaches(o.Reaches, c.reaches) {
 				match = false
 			}
 			if match {
@@ -511,4 +511,22 @@ func (r *report) writeEvidence(wall time.Duration, eng *sx.Engine, violations, c
 		},
 	}
 	writeJSON(filepath.Join(verifDir, "evidence", r.prop+".json"), ev)
+}
+
+// sameReaches compares native and predicted reach/observe lists; a predicted
+// "label=?" (value depends on an uninterpreted function) matches any value.
+func sameReaches(native, predicted []string) bool {
+	if len(native) != len(predicted) {
+		return false
+	}
+	for i := range native {
+		if native[i] == predicted[i] {
+			continue
+		}
+		if strings.HasSuffix(predicted[i], "=?") && strings.HasPrefix(native[i], strings.TrimSuffix(predicted[i], "?")) {
+			continue
+		}
+		return false
+	}
+	return true
 }
